@@ -1,2 +1,171 @@
-(* Props_C08_tsr — reserved. *)
+(* C08 — trailing-slash ("tsr") detection of lookupByPath = the specification's selection on the
+   slash-toggled path, for path-only method trees.  Owner: p-tsr.  Notes: docs/C08_tsr.md.
+   Only statements closed by [exact]; non-vacuity examples next to them. *)
 From FoxBase Require Import Bytes.
+From FoxRoute Require Import Node Lookup Spec Tree Corr StaticEquiv StaticEquiv2 TsrEquiv TsrEquiv2.
+From FoxRoute Require SpecSound2.
+Open Scope char_scope.
+
+(* ---- the FULL statement (not proved; never used as a hypothesis) ----
+   WF = "reachable from Tree.empty_txn by Tree.insert / Tree.remove of patterns accepted by parseRoute",
+   hostname routes included; InDomain = the request paths on which the specification is meant to apply
+   (non-empty, no '*' byte, no empty segment).  Observation = route, tsr flag, params-or-tsrParams. *)
+Definition C08_tsr_statement (WF : roots -> Prop) (InDomain : bytes -> Prop) : Prop :=
+  forall r, WF r -> forall method host path, InDomain path ->
+  exists fuel0, forall fuel, fuel0 <= fuel ->
+    lres_sres (roots_lookup fuel r method host path false [] []) =
+    Some (spec_lookup (method_patterns r method) host path).
+
+(* ---- 1. M1 = M2t ----
+   M2t (TsrEquiv.m2t) = the structural DFS matcher M2 of C01 extended with the trailing-slash candidate:
+   it returns a direct match (TD) or the FIRST candidate met in DFS order with its parameter snapshot (TN),
+   mirroring the five sites: path ends inside / at the end of a key (remove-slash towards the leaf parent
+   when exactly "/" was matched, add-slash when exactly "/" is left or towards a leaf child "/"),
+   leaving a fully matched leaf with only "/" left, and propagation through catch-all sub-lookups.
+   For pwf trees, any non-empty path, any [lazy], fuel >= m2_fuel: lookupByPath returns exactly M2t's
+   node (up to the truncated copy used inside an infix catch-all: same route), tsr flag, and
+   params (direct) / tsrParams (tsr; [] when lazy).  No side condition on the request path. *)
+Theorem C08_M1_eq_M2t : forall t path lazy fuel, pwf [] t -> path <> [] -> m2_fuel path t <= fuel ->
+  tsr_res (lookup_by_path fuel t path lazy [] []) lazy (m2t (has_suffix_slash path) None t path).
+Proof. exact lbp_eq_m2t. Qed.
+Print Assumptions C08_M1_eq_M2t.
+
+(* ---- 2. M2t = Spec: without a direct match the first DFS candidate is exactly the specification's
+   selection on the toggled path (same route, same values) — no false positive, no false negative,
+   and the first candidate met is the specification's highest-priority one ---- *)
+Theorem C08_M2t_eq_Spec_tsr : forall t host path c,
+  pwf [] t -> starts_with "/" (nkey t) = true -> path <> [] -> okpath path = true ->
+  m2t (has_suffix_slash path) None t path = TN c ->
+  select_tsr_in (map rpat (routes_of_node t)) host path false = res_of [] c.
+Proof. exact m2t_eq_spec_tsr. Qed.
+Print Assumptions C08_M2t_eq_Spec_tsr.
+
+(* (a) no false positive, in the words of the property: a tsr answer names a registered route that
+   matches the toggled path, the added slash facing a literal '/' that ends the pattern *)
+Theorem C08_tsr_no_false_positive : forall t host path l kvs,
+  pwf [] t -> starts_with "/" (nkey t) = true -> path <> [] -> okpath path = true ->
+  m2t (has_suffix_slash path) None t path = TN (Some (l, kvs)) ->
+  SpecSound2.TsrMatch (map rpat (routes_of_node t)) host path false (lpat l) (map snd kvs).
+Proof. exact m2t_tsr_sound. Qed.
+Print Assumptions C08_tsr_no_false_positive.
+
+(* (b) no false negative *)
+Theorem C08_tsr_no_false_negative : forall t host path p vals,
+  pwf [] t -> starts_with "/" (nkey t) = true -> path <> [] -> okpath path = true ->
+  SpecSound2.TsrMatch (map rpat (routes_of_node t)) host path false p vals ->
+  m2t (has_suffix_slash path) None t path <> TN None.
+Proof. exact m2t_tsr_complete. Qed.
+Print Assumptions C08_tsr_no_false_negative.
+
+(* a candidate carries a registered route and the names of its pattern *)
+Theorem C08_M2t_candidate_sound : forall sl n pre pm p l kvs, pwf pre n ->
+  m2t sl pm n p = TN (Some (l, kvs)) -> cand_ok n pre pm l kvs.
+Proof. exact m2t_sound. Qed.
+Print Assumptions C08_M2t_candidate_sound.
+
+(* ---- 3. request level, the stage reached: path-only method trees (pwf), non-empty request paths
+   without '*' byte and without empty segment.  direct > tsr > nothing, route and parameter values. ---- *)
+Theorem C08_tsr_partial : forall r m t host path fuel,
+  path_only_root r m t -> pwf [] t -> path <> [] -> okpath path = true -> m2_fuel path t <= fuel ->
+  lres_sres (roots_lookup fuel r m host path false [] []) = Some (spec_lookup (method_patterns r m) host path).
+Proof. exact roots_lookup_eq_spec_tsr. Qed.
+Print Assumptions C08_tsr_partial.
+
+(* on S: a registered route that matches neither the request path nor its slash-adjusted form (in
+   either mode) never changes the outcome *)
+Theorem C08_spec_lookup_irrelevant_route : forall pats1 p pats2 host path,
+  (forall hm, select_in [p] host path hm = None /\ select_tsr_in [p] host path hm = None) ->
+  spec_lookup (pats1 ++ p :: pats2) host path = spec_lookup (pats1 ++ pats2) host path.
+Proof. exact spec_lookup_irrelevant. Qed.
+Print Assumptions C08_spec_lookup_irrelevant_route.
+
+(* ... hence neither does it change the outcome of the implementation *)
+Theorem C08_irrelevant_route_impl : forall r m t r' m' t' pats1 p pats2 host path fuel,
+  path_only_root r m t -> pwf [] t -> path_only_root r' m' t' -> pwf [] t' ->
+  method_patterns r m = pats1 ++ p :: pats2 -> method_patterns r' m' = pats1 ++ pats2 ->
+  (forall hm, select_in [p] host path hm = None /\ select_tsr_in [p] host path hm = None) ->
+  path <> [] -> okpath path = true -> m2_fuel path t <= fuel -> m2_fuel path t' <= fuel ->
+  lres_sres (roots_lookup fuel r m host path false [] []) = lres_sres (roots_lookup fuel r' m' host path false [] []).
+Proof. exact roots_lookup_irrelevant_route. Qed.
+Print Assumptions C08_irrelevant_route_impl.
+
+(* no trailing-slash action for the path "/" *)
+Theorem C08_root_no_tsr : forall r m t host fuel n pss tpss,
+  path_only_root r m t -> pwf [] t -> m2_fuel ["/"] t <= fuel ->
+  roots_lookup fuel r m host ["/"] false [] [] <> Found (Some n) true pss tpss.
+Proof. exact roots_lookup_root_no_tsr. Qed.
+Print Assumptions C08_root_no_tsr.
+
+(* ---- non-vacuity ---- *)
+Definition ex_fuel : nat := N.to_nat 400000%N.
+Definition L (t : txn) (p : string) := lres_sres (roots_lookup ex_fuel (t_roots t) m_get [] (S2B p) false [] []).
+Definition Sp (t : txn) (p : string) := spec_lookup (method_patterns (t_roots t) m_get) [] (S2B p).
+Definition hyps (t : txn) (p : string) : Prop :=
+  path_only_root (t_roots t) m_get (path_root t) /\ pwf [] (path_root t) /\ S2B p <> [] /\ okpath (S2B p) = true /\
+  m2_fuel (S2B p) (path_root t) <= ex_fuel.
+Ltac hyps_tac t :=
+  split; [exists 0, (Node m_get None [path_root t]); vm_compute; repeat split|];
+  split; [apply pwfb_sound; vm_compute; reflexivity|];
+  split; [discriminate|]; split; [vm_compute; reflexivity|apply Nat.leb_le; vm_compute; reflexivity].
+
+(* the four repaired witnesses *)
+Definition w1 : txn := build [mk_ri "/foo" 1 0; mk_ri "/foobar/x" 2 0; mk_ri "/foobar/y" 3 0].
+Definition w2 : txn := build [mk_ri "/a/" 1 0; mk_ri "/ab" 2 0].
+Definition w3 : txn := build [mk_ri "/a" 1 0; mk_ri "/a{x}/b" 2 1].
+Definition w4 : txn := build [mk_ri "/a*{v}/" 1 1].
+Example ex_w1 : hyps w1 "/foobar/" /\ L w1 "/foobar/" = Some SNone /\ Sp w1 "/foobar/" = SNone
+  /\ L w1 "/foo/" = Some (STsr (S2B "/foo") []) /\ Sp w1 "/foo/" = STsr (S2B "/foo") [].
+Proof. split; [hyps_tac w1|vm_compute; repeat split]. Qed.
+Example ex_w2 : hyps w2 "/a" /\ L w2 "/a" = Some (STsr (S2B "/a/") []) /\ Sp w2 "/a" = STsr (S2B "/a/") []
+  /\ L w2 "/ab/" = Some (STsr (S2B "/ab") []) /\ Sp w2 "/ab/" = STsr (S2B "/ab") [].
+Proof. split; [hyps_tac w2|vm_compute; repeat split]. Qed.
+Example ex_w3 : hyps w3 "/a/" /\ L w3 "/a/" = Some (STsr (S2B "/a") []) /\ Sp w3 "/a/" = STsr (S2B "/a") []
+  /\ L w3 "/ax/b/" = Some (STsr (S2B "/a{x}/b") [(S2B "x", S2B "x")]) /\ Sp w3 "/ax/b/" = STsr (S2B "/a{x}/b") [(S2B "x", S2B "x")].
+Proof. split; [hyps_tac w3|vm_compute; repeat split]. Qed.
+Example ex_w4 : hyps w4 "/a/c/b" /\ L w4 "/a/c/b" = Some SNone /\ Sp w4 "/a/c/b" = SNone
+  /\ L w4 "/ac/b" = Some (STsr (S2B "/a*{v}/") [(S2B "v", S2B "c/b")]) /\ Sp w4 "/ac/b" = STsr (S2B "/a*{v}/") [(S2B "v", S2B "c/b")].
+Proof. split; [hyps_tac w4|vm_compute; repeat split]. Qed.
+
+(* all five sites on one tree: key-end-mid-edge add-slash with a parameter (site 2), remove-slash towards the
+   leaf parent through a non-leaf "/" node (site 1), leaf child "/" (site 1, add), leaving a leaf with "/"
+   left before a wildcard child (site 4), propagation out of an infix catch-all sub-lookup (site 5);
+   and direct > tsr *)
+Definition w5 : txn :=
+  build [mk_ri "/u/{id}/" 1 1; mk_ri "/u/{id}/posts" 2 1; mk_ri "/f/*{p}/end/" 3 1; mk_ri "/s" 4 0; mk_ri "/s/x" 5 0;
+         mk_ri "/s/y" 6 0; mk_ri "/d" 7 0; mk_ri "/d{z}" 8 1; mk_ri "/c/x" 9 0; mk_ri "/c/x/" 10 0; mk_ri "/e/" 11 0; mk_ri "/e/*{w}" 12 1].
+Example ex_w5 : hyps w5 "/f/a/b/end" /\ plain (path_root w5) = false
+  /\ L w5 "/u/7" = Some (STsr (S2B "/u/{id}/") [(S2B "id", S2B "7")]) /\ Sp w5 "/u/7" = STsr (S2B "/u/{id}/") [(S2B "id", S2B "7")]
+  /\ L w5 "/u/7/posts/" = Some (STsr (S2B "/u/{id}/posts") [(S2B "id", S2B "7")])
+  /\ L w5 "/f/a/b/end" = Some (STsr (S2B "/f/*{p}/end/") [(S2B "p", S2B "a/b")]) /\ Sp w5 "/f/a/b/end" = STsr (S2B "/f/*{p}/end/") [(S2B "p", S2B "a/b")]
+  /\ L w5 "/s/" = Some (STsr (S2B "/s") []) /\ Sp w5 "/s/" = STsr (S2B "/s") []
+  /\ L w5 "/d/" = Some (STsr (S2B "/d") []) /\ Sp w5 "/d/" = STsr (S2B "/d") []
+  /\ L w5 "/c/x/" = Some (SDirect (S2B "/c/x/") []) /\ L w5 "/c/x" = Some (SDirect (S2B "/c/x") [])
+  /\ L w5 "/e" = Some (STsr (S2B "/e/") []) /\ Sp w5 "/e" = STsr (S2B "/e/") []
+  /\ L w5 "/" = Some SNone /\ L w5 "/zz/" = Some SNone /\ Sp w5 "/zz/" = SNone.
+Proof. split; [hyps_tac w5|vm_compute; repeat split]. Qed.
+
+(* an irrelevant route: "/q/{k}" matches neither "/s/" nor "/s" *)
+Example ex_irrelevant :
+  (forall hm, select_in [S2B "/q/{k}"] [] (S2B "/s/") hm = None /\ select_tsr_in [S2B "/q/{k}"] [] (S2B "/s/") hm = None)
+  /\ spec_lookup [S2B "/s"; S2B "/q/{k}"; S2B "/s/x"] [] (S2B "/s/") = STsr (S2B "/s") [].
+Proof. split; [intros [|]; vm_compute; split; reflexivity|vm_compute; reflexivity]. Qed.
+
+(* ---- the side condition path <> "" is needed: on the EMPTY path the matcher reports a trailing-slash
+   action towards "/" (fox: Lookup with URL.Path = "" returns route "/" with tsr = true), the
+   specification none ---- *)
+Definition w0 : txn := build [mk_ri "/" 1 0].
+Theorem C08_tsr_empty_path_refuted :
+  exists r m t host fuel,
+    path_only_root r m t /\ pwf [] t /\ m2_fuel [] t <= fuel /\
+    lres_sres (roots_lookup fuel r m host [] false [] []) = Some (STsr (S2B "/") []) /\
+    spec_lookup (method_patterns r m) host [] = SNone.
+Proof.
+  exists (t_roots w0), m_get, (path_root w0), [], ex_fuel.
+  split; [|split; [|split; [|split]]].
+  - exists 0, (Node m_get None [path_root w0]). vm_compute. repeat split.
+  - apply pwfb_sound. vm_compute. reflexivity.
+  - apply Nat.leb_le. vm_compute. reflexivity.
+  - vm_compute. reflexivity.
+  - vm_compute. reflexivity.
+Qed.
+Print Assumptions C08_tsr_empty_path_refuted.
